@@ -44,6 +44,9 @@ class CholLinearOperator(RootLinearOperator):
             else:
                 raise ValueError("chol must be either lower or upper triangular")
         super().__init__(chol)
+        # record the orientation as a constructor argument so that clone / detach / to / the representation-tree
+        # rebuild (which re-invoke the constructor from the stored arguments) preserve it
+        self._nondifferentiable_kwargs["upper"] = upper
         self.upper = upper
 
     @property
